@@ -16,3 +16,9 @@ pub fn no_panic<T, F: FnOnce() -> T>(f: F) -> Result<T, String> {
         }
     }
 }
+
+/// `VERIF_TIER=thorough` deepens the witness exploration (more repetitions, larger grids, exhaustive small scopes)
+pub fn thorough() -> bool {
+    std::env::var("VERIF_TIER").map(|v| v == "thorough").unwrap_or(false)
+}
+pub fn scale(quick: usize, thorough_n: usize) -> usize { if thorough() { thorough_n } else { quick } }
